@@ -952,9 +952,11 @@ fn do_command_substitution_for_dollar(sh: &mut Shell, tokens: &mut types::Tokens
                 return;
             }
 
-            let to = format!("${{head}}{}${{tail}}", output_txt);
+            // the output is text, not a replacement template: `$1`, `${x}`, `$name` in it stay as they are
             let line_ = line.clone();
-            let result = re.replace(&line_, to.as_str());
+            let result = re.replace(&line_, |caps: &regex::Captures| {
+                format!("{}{}{}", &caps["head"], output_txt, &caps["tail"])
+            });
             line = result.to_string();
         }
 
